@@ -10,6 +10,7 @@ import (
 	"net"
 	"strconv"
 	"strings"
+	"sync"
 	"time"
 
 	"verifharness/respc"
@@ -347,11 +348,19 @@ func Dial(addr string, timeout time.Duration) (*Conn, error) {
 	if tc, ok := c.(*net.TCPConn); ok {
 		tc.SetNoDelay(true)
 	}
-	return &Conn{C: c, Timeout: timeout, tmp: make([]byte, 64*1024)}, nil
+	return &Conn{C: c, Timeout: timeout, tmp: tmpPool.Get().([]byte)}, nil
 }
 
+var tmpPool = sync.Pool{New: func() any { return make([]byte, 64*1024) }}
+
 // Close closes the socket.
-func (c *Conn) Close() error { return c.C.Close() }
+func (c *Conn) Close() error {
+	if c.tmp != nil {
+		tmpPool.Put(c.tmp)
+		c.tmp = nil
+	}
+	return c.C.Close()
+}
 
 // Write sends one segment.
 func (c *Conn) Write(b []byte) error {
@@ -369,6 +378,9 @@ func (c *Conn) CloseWrite() error {
 }
 
 func (c *Conn) fill(deadline time.Time) error {
+	if c.tmp == nil {
+		return io.ErrClosedPipe
+	}
 	c.C.SetReadDeadline(deadline)
 	n, err := c.C.Read(c.tmp)
 	if n > 0 {
